@@ -134,6 +134,8 @@ class DriverGen(object):
         L.append("  P(p + \".IsComplete\", v.IsComplete());")
         L.append("  bool sk = v.SizeIsKnown(); P(p + \".SizeIsKnown\", sk);")
         L.append("  if (sk) P(p + \".Size\", std::to_string(static_cast<unsigned long long>(v.%s())));" % size_fn)
+        unit = "Bits" if st.kind == "bits" else "Bytes"
+        L.append("  P(p + \".StaticMinSize\", S(v.MinSizeIn%s().Read())); P(p + \".StaticMaxSize\", S(v.MaxSizeIn%s().Read()));" % (unit, unit))
         for f in st.fields:
             for g in ([f] if not f.is_anon else f.anon):
                 L.append("  { auto h = v.has_%s(); P(p + \".has_%s\", H(h));" % (g.name, g.name))
